@@ -28,9 +28,9 @@ META = {
                   'patch_on_key/_path/_value/_type/_member, rebind(callable), get_rebind_dict, pg.query, pg.traverse and '
                   'sym_descendants are run on every tree x every call of the table and compared field by field; the relations '
                   'between the observed results of different APIs are evaluated by TLC itself.',
-    'level_note': 'Bounded: all trees with <= 3 locations (thorough: <= 4) over keys a, b, x1 and leaves 1, 2, "s", plus 12 '
-                  'deeper shapes; 24 patch conditions x 4 value functions, 4 notification modes on 3 conditions, 11 rebinder '
-                  'conditions, 83 selectors, 6 where-predicates x 3 options, 65 visitor pairs. Regex semantics (re.match) and '
+    'level_note': 'Bounded: all trees with <= 3 locations (thorough: <= 4) over keys a, b, x1 and leaves 1, 2, "s", plus 18 '
+                  'deeper shapes (6 of them with the dict key "q]"); 24 patch conditions x 4 value functions, 4 notification modes on 3 conditions, 11 rebinder '
+                  'conditions, 59 selectors, 6 where-predicates x 3 options, 65 visitor pairs (506 calls per tree). Regex semantics (re.match) and '
                   'the KeyError for a selected root are taken from the code (explicit guard / unit tests). Postorder calls '
                   'after a STOP are only required not to visit anything new. Not generated: MISSING_VALUE / Insertion as new '
                   'values, value functions that raise, typed (schema) containers, sealed objects, notify_parents=False, keys '
@@ -69,7 +69,7 @@ def run(chk):
               'written / selected / an early stop / an error); traces = simulated histories replayed + trees whose '
               'observed relations TLC checked')
   chk.assumptions += [
-      'universe: all trees with <= 3 (thorough: 4) locations, keys a / b / x1, leaves 1 / 2 / "s", classes A(a), B(a, x1), plus 12 deeper shapes',
+      'universe: all trees with <= 3 (thorough: 4) locations, keys a / b / x1, leaves 1 / 2 / "s", classes A(a), B(a, x1), plus 18 deeper shapes (6 with the key "q]")',
       'regexes are matched with re.match (anchored at the start only), as the code does and object_test.QueryTest pins',
       'a rebinder that returns a new value for the root raises KeyError (explicit guard in _set_item_of_current_tree)',
       'equal leaves are the same value (small ints / interned strings): "returns the same value" is decided by == on leaves',
